@@ -12,7 +12,8 @@
                                         hr : rank of murmur3(rc[i..i+k-1])]
                           (distance: seqs = side A, seqs2 = side B, both sketched with n, k),
             view   (View() as ranks), d, dr (10^8 * distance A-B and B-A, rounded), jn, jd (jaccard = jn/jd),
-            panic  (the call panicked)]
+            panic  (the call panicked),
+            invs, invp (only for events over millions of k-mers, else <<>>: see IndexOK / RanksByIndex)]
 
    The hash is uninterpreted: the harness hashes every k-substring of both strands with murmur3
    directly; the specification decides which strand is canonical, de-duplicates and selects the n
@@ -44,6 +45,33 @@ SeqRanks(r, k) ==
        : i \in 1..NKmers(u, k) }
 \* (a fold of \cup rather than UNION: TLC builds the result of UNION by sorted insertion, quadratic on a million ranks)
 Ranks(recs, k) == LET f(acc, r) == acc \cup SeqRanks(r, k) IN FoldLeft(f, {}, recs)
+
+(* Events over millions of k-mers carry an index (invs, invp) from rank to one place where a k-mer of that rank stands.  Whether
+   a rank is a canonical one depends on the k-mer's content only (the content c is canonical iff c is not greater than its reverse
+   complement, wherever it stands), so the canonical ranks are { x : the k-mer at the indexed place is not greater than its mate }
+   - enumerated over 1..R in ascending order, which is the order in which TLC can build a large set in linear time.  The index
+   is checked against the strand tables (IndexOK): every entry points to a k-mer of that rank, every rank that occurs is indexed. *)
+HasIndex(e) == e.invs # <<>>
+IndexOK(e) ==
+  /\ Len(e.invp) = Len(e.invs)
+  /\ \A x \in 1..Len(e.invs) :
+        e.invs[x] # 0 => /\ e.invs[x] \in 1..Len(e.seqs)
+                         /\ LET r == e.seqs[e.invs[x]]  p == e.invp[x]
+                            IN IF p > 0 THEN p <= Len(r.hf) /\ r.hf[p] = x
+                               ELSE p < 0 /\ 0 - p <= Len(r.hr) /\ r.hr[0 - p] = x
+  /\ \A s \in 1..Len(e.seqs) : \A i \in 1..Len(e.seqs[s].hf) :
+        /\ e.seqs[s].hf[i] \in 1..Len(e.invs) /\ e.invs[e.seqs[s].hf[i]] # 0
+        /\ e.seqs[s].hr[i] \in 1..Len(e.invs) /\ e.invs[e.seqs[s].hr[i]] # 0
+RanksByIndex(e) ==
+  LET U == [s \in 1..Len(e.seqs) |-> UpperSeq(e.seqs[s].s) \o <<>>] \o <<>>      \* (\o <<>>: explicit tuples, made once)
+      canon(x) == LET s == e.invs[x]  p == e.invp[x]  r == e.seqs[s]  L == Len(r.s)
+                      i == IF p > 0 THEN p ELSE L - (0 - p) - e.k + 2        \* place in the upper-cased sequence
+                      j == L - i - e.k + 2                                    \* place of the mate in the reverse complement
+                      xf == SubSeq(U[s], i, i + e.k - 1)
+                      xr == SubSeq(r.rc, j, j + e.k - 1)
+                  IN IF p > 0 THEN ~Greater(xf, xr) ELSE ~Greater(xr, xf)
+  IN { x \in 1..Len(e.invs) : e.invs[x] # 0 /\ canon(x) }
+EvRanks(e) == IF HasIndex(e) THEN RanksByIndex(e) ELSE Ranks(e.seqs, e.k)
 
 SketchReason(e, K1, R, RK, RN) ==
   IF e.view # SketchView(K1, e.n) THEN
@@ -83,13 +111,15 @@ TNext ==
          new  == e.sid # sid                                    \* TraceReset
          K0   == IF new \/ e.fresh THEN {} ELSE K
          isSk == e.op = "sketch" \/ e.op = "add"
-         K1   == IF isSk THEN K0 \cup Ranks(e.seqs, e.k) ELSE K0
+         K1   == IF isSk THEN K0 \cup EvRanks(e) ELSE K0
          R    == IF new THEN <<>> ELSE ref
          RK   == IF new THEN {} ELSE refK
          PJ   == IF new THEN <<0, 1, 0>> ELSE pj
          PD   == IF new THEN 0 ELSE pd
          why  == IF e.sid = fsid THEN "ok"
                  ELSE IF ~DriverOK(e) THEN "driver-strand-table"
+                 ELSE IF HasIndex(e) /\ ~IndexOK(e) THEN "driver-rank-index"
+                 ELSE IF HasIndex(e) /\ Len(e.invs) < 5000 /\ RanksByIndex(e) # Ranks(e.seqs, e.k) THEN "driver-index-form-differs-from-plain-form"
                  ELSE IF e.panic THEN "panic"
                  ELSE IF isSk THEN (IF new THEN SketchReason(e, K1, e.view, K1, e.n) ELSE SketchReason(e, K1, R, RK, refn))
                  ELSE IF e.op = "distance" THEN DistReason(e)
